@@ -30,7 +30,7 @@ pub struct Violation {
     pub detail: String,
 }
 
-pub const CHECK_IDS: [&str; 20] = ["E0", "E1", "E2", "E3", "A1", "D1", "D2", "D3", "D4", "D5", "D6", "B1", "M1", "S1", "S2", "S3", "S4", "U1", "D7", "S5"];
+pub const CHECK_IDS: [&str; 21] = ["E0", "E1", "E2", "E3", "A1", "D1", "D2", "D3", "D4", "D5", "D6", "B1", "M1", "S1", "S2", "S3", "S4", "U1", "D7", "S5", "L1"];
 
 fn check_no(id: &str) -> u64 {
     CHECK_IDS.iter().position(|c| *c == id).unwrap_or(99) as u64
@@ -306,6 +306,17 @@ pub fn write_phase(table: &[Ops], t: &Trace, record: bool) -> Result<Written, Vi
         if !r.vals.is_empty() {
             log.ev(ev::CHECK_OK, check_no("B1"), i as u64);
         }
+        // L1: declared EncodeLike relations with primitive integers store bytes the slot type can read
+        if let Some(v0) = r.vals.first() {
+            match catch_unwind(|| (ops.el_check)(*v0)) {
+                Ok(None) => log.ev(ev::CHECK_OK, check_no("L1"), i as u64),
+                Ok(Some(m)) => {
+                    log.ev(ev::CHECK_FAIL, check_no("L1"), i as u64);
+                    return Err(viol("L1", i, &f0, m));
+                }
+                Err(p) => return Err(viol("L1", i, &f0, format!("{}: EncodeLike probe unwound: {}", ops.name, panic_msg(p)))),
+            }
+        }
         // M1: published metadata describes the plain integer
         match catch_unwind(|| (ops.meta_check)()) {
             Ok(Ok(())) => log.ev(ev::CHECK_OK, check_no("M1"), i as u64),
@@ -475,6 +486,27 @@ fn serde_op(table: &[Ops], o: &SerdeOp, k: usize, log: &mut Log) -> Result<(), V
                             return Err(viol("S5", k, &f0, format!("{}: out-of-range {:?} was accepted as {:?}; the one-field integer struct rejects it ({:?})", l.name, text, x, y)));
                         }
                     }
+                }
+            }
+        }
+        // the same rule for a document that carries the field twice with different in-range values: two
+        // readers of such a document must not silently settle on different values
+        let other = (bits ^ 1) & l.mask();
+        let render = |b: u128| -> String {
+            if l.signed {
+                let sh = 128 - w;
+                (((b << sh) as i128) >> sh).to_string()
+            } else {
+                b.to_string()
+            }
+        };
+        let text = format!("{{\"bits\":{},\"bits\":{}}}", render(bits), render(other));
+        match catch_unwind(|| ((s.unjson)(&text, o.wrapping), (s.unjson_twin)(&text))) {
+            Err(p) => return Err(viol("S5", k, &f0, format!("{}: serde_json parse of {:?} unwound: {}", l.name, text, un(p)))),
+            Ok((x, y)) => {
+                if y.is_err() && x.is_ok() {
+                    log.ev(ev::CHECK_FAIL, check_no("S5"), k as u64);
+                    return Err(viol("S5", k, &f0, format!("{}: {:?} (the field twice, different values) was accepted as {:?}; the one-field integer struct rejects it ({:?})", l.name, text, x, y)));
                 }
             }
         }
